@@ -30,7 +30,11 @@ assert rc == 0, out
 meta = {"property": prop, "seed": f"{prop}-{dn}", "repo_head": sh("git -C /repo rev-parse --short HEAD")[1].strip(), "confirmed_at": time.strftime("%Y-%m-%dT%H:%M:%S")}
 try:
     demos = []
-    for f in sorted(os.listdir(f"{src}/demo")):
+    rel = []
+    for root_, _, files in os.walk(f"{src}/demo"):
+        for fn in files:
+            rel.append(os.path.relpath(os.path.join(root_, fn), f"{src}/demo"))
+    for f in sorted(rel):
         txt = open(f"{src}/demo/{f}", errors="replace").read()
         head = "\n".join(txt.split("\n")[:40])
         m = re.search(r"(?i)place this file at[^\n]*?:\s*\n?\s*(?://\s*)?([\w./-]+\.go)", head)
